@@ -10,6 +10,9 @@ MC_IdSeqs == CASE IdOrder = "asc" -> {s \in InjSeqs(IdVals, MaxN) : Asc(s)}
                [] IdOrder = "all" -> InjSeqs(IdVals, MaxN)
                [] OTHER -> {SubSeq(<<1, 2, 3, 4>>, 1, MaxN), SubSeq(<<3, 1, 4, 2>>, 1, MaxN)}
 
+(* generator: ShareOrSigns scenarios once per n (t = 2 where possible, first id pattern) *)
+GenInit == Init /\ (kind = "sos" => (t = (IF n > 1 THEN 2 ELSE 1) /\ ids = SubSeq(<<1, 2, 3, 4>>, 1, n)))
+GenSpec == GenInit /\ [][Next]_vars
 (* one BEHAVIOUR line per terminal scenario; only its structure is replayed (the real secrets are random) *)
 GPrint == phase \in {"checked", "combined", "sos_checked"} =>
   PrintT(<<"BEHAVIOUR", ToJson([kind |-> kind, t |-> t, n |-> n, ids |-> ids, tam |-> tam, seq |-> seq, ent |-> ent])>>)
